@@ -207,6 +207,11 @@ func c21Infer(rng *rand.Rand, n int, args []string) {
 		g := genC21GramOpt(rng, wild)
 		name := fmt.Sprintf("i%04d", i)
 		tm := g.toTM(name)
+		if i%5 == 4 {
+			// recursion that runs through a chain of arrow-free nonterminals (the lowLink of the chain has to travel back)
+			wild = true
+			tm = c21CycleTM(rng, name)
+		}
 		var dump, out string
 		var bad bool
 		var typesCase []string
@@ -277,4 +282,66 @@ func c21Infer(rng *rand.Rand, n int, args []string) {
 	sx.Stat("infer_wild_grammars", recursive)
 	sx.Stat("infer_whole_compiler_accepted", fullOK)
 	sx.Stat("infer_parser_types_differ", disagree)
+}
+
+// c21CycleTM: N0 -> Root over a cycle K0 -> K1 -> ... -> K(L-1) -> K0 of nonterminals without arrows of their own,
+// with arrows around terminals at random places of the chain; some members get an extra wrapper arrow.
+func c21CycleTM(rng *rand.Rand, name string) string {
+	var sb strings.Builder
+	fmt.Fprintf(&sb, "language %s(go);\n\nlang = %q\npackage = \"verifgen/%s/base\"\neventBased = true\neventFields = true\neventAST = true\n\n:: lexer\n\n", name, name, name)
+	for t := 0; t < 6; t++ {
+		fmt.Fprintf(&sb, "t%c: /%c/\n", 'a'+t, 'a'+t)
+	}
+	sb.WriteString("invalid_token:\n\n:: parser\n\n%input N0;\n\n")
+	l := 2 + rng.Intn(3)
+	marks := 0
+	item := func() string {
+		t := fmt.Sprintf("t%c", 'c'+rng.Intn(4))
+		switch rng.Intn(6) {
+		case 0:
+			return ""
+		case 1:
+			return t
+		case 2:
+			marks++
+			return fmt.Sprintf("(%s -> Mark%d)", t, marks)
+		case 3:
+			marks++
+			return fmt.Sprintf("(%s -> Mark%d)?", t, marks)
+		case 4:
+			return fmt.Sprintf("(%s -> Mark%d)", t, 1+rng.Intn(marks+1)) // the same type at several places
+		default:
+			marks++
+			return fmt.Sprintf("(%s -> Mark%d)+", t, marks)
+		}
+	}
+	switch rng.Intn(3) {
+	case 0:
+		sb.WriteString("N0 -> Root:\n    K0\n;\n\n")
+	case 1:
+		sb.WriteString("N0 -> Root:\n    (K0 -> Group) te\n;\n\n")
+	default:
+		sb.WriteString("N0 -> Root:\n    G\n;\n\nG -> Group:\n    K0 " + item() + "\n;\n\n")
+	}
+	for i := 0; i < l; i++ {
+		next := fmt.Sprintf("K%d", (i+1)%l)
+		if i == l-1 && rng.Intn(4) == 0 {
+			next = "(" + next + " -> Inner)"
+		}
+		fmt.Fprintf(&sb, "K%d:\n", i)
+		if i == l-1 {
+			fmt.Fprintf(&sb, "    ta %s %s tb %s\n", item(), next, item())
+		} else {
+			fmt.Fprintf(&sb, "    %s %s %s\n", item(), next, item())
+		}
+		if i == 0 || rng.Intn(3) == 0 {
+			fmt.Fprintf(&sb, "  | tb %s\n", item())
+		}
+		if rng.Intn(4) == 0 {
+			// a second way into the cycle, entering it in the middle
+			fmt.Fprintf(&sb, "  | tc K%d td\n", rng.Intn(l))
+		}
+		sb.WriteString(";\n\n")
+	}
+	return sb.String()
 }
